@@ -137,6 +137,8 @@ Record Inv (s : st) (D : list nat) : Prop := mkInv {
                dref U = Some r -> dref V = Some r -> dcevis U = dcevis V /\ tracked U = tracked V;
   I_rank : forall u U v ch, get_unit s u = Some U -> dref U <> None -> In (O v ch) (ins U) ->
            exists V, get_unit s v = Some V /\ dref V <> None /\ (sidx V < sidx U)%Z;
+  I_ch : forall u U v ch V, get_unit s u = Some U -> In (O v ch) (ins U) -> get_unit s v = Some V ->
+         multi V = false -> ch = 0;
   I_inlive : forall c C v ch, liv s c -> ~ In c D -> get_unit s c = Some C -> In (O v ch) (ins C) -> liv s v;
   I_lower : forall x X c, liv s x -> ~ In x D -> get_unit s x = Some X -> isugen X = true ->
             liv s c -> ~ In c D -> reads s c x -> In c (dsetf s X);
@@ -200,6 +202,7 @@ Proof.
   - exact I_refinj0.
   - exact I_refshape0.
   - exact I_rank0.
+  - exact I_ch0.
   - intros c C v ch Hc Hnc. apply I_inlive0; auto. intro; apply Hnc; right; auto.
   - intros x X c Hx Hnx HX Hi Hc Hnc. apply I_lower0; auto; intro; [apply Hnx | apply Hnc]; right; auto.
   - intros x X c Hx Hnx. apply I_upper0; auto. intro; apply Hnx; right; auto.
@@ -250,6 +253,7 @@ Proof.
   - intros a b U V r0 Ha Hb HU HV. apply (I_refinj0 a b U V r0); auto; apply Hliv; auto.
   - exact I_refshape0.
   - exact I_rank0.
+  - exact I_ch0.
   - intros c C v ch Hc Hn Hg Hi. apply Hliv. eapply I_inlive0; eauto; try (apply Hliv; auto).
   - intros x X c Hx Hnx Hg Hi Hc Hnc Hrd. apply Hsup.
     + intro; subst. contradiction.
@@ -325,6 +329,7 @@ Proof.
   - intros a b A B r Ga Gb. rewrite Hget in Ga, Gb. eapply I_refshape0; eauto.
   - intros x X v ch A B C. rewrite Hget in A. destruct (I_rank0 x X v ch A B C) as (V & E & F & G).
     exists V. rewrite Hget. auto.
+  - intros x X v ch V A B C E. rewrite Hget in A, C. exact (I_ch0 x X v ch V A B C E).
   - intros c C v ch Lc Nc Gc Hin. rewrite Hget in Gc. apply Hliv in Lc. destruct Lc as [Lc Nu].
     pose proof (HD c Nc Nu) as NcD.
     apply Hliv. split; [eapply I_inlive0; eauto|].
@@ -450,3 +455,659 @@ Proof.
            assert (Hg : get_set s1 ref = get_set s ref) by (apply get_set_put_other; auto). rewrite Hg. tauto.
       * simpl. destruct (IH s Hok') as (A & B & C & E & F). repeat split; auto; apply F.
 Qed.
+
+(* ---- what a constructor called during the rewrite must deliver: exactly one new object, which reads
+   what the absorbed unit read plus the other operand(s) of `self` *)
+Record MkSpec (s1 s2 : st) (rv : inp) (Self UA R : unit) : Prop := mkMk {
+  MK_rv : rv = O (List.length (units s1)) 0;
+  MK_units : units s2 = units s1 ++ [R];
+  MK_children : children s2 = children s1;
+  MK_sets : sets s2 = sets s1;
+  MK_rw : rewriting s2 = rewriting s1;
+  MK_uid : uid R = List.length (units s1);
+  MK_dref : dref R = None;
+  MK_tracked : tracked R = true;
+  MK_ok : unit_ok R = true;
+  MK_in1 : forall v ch, In (O v ch) (ins R) -> In (O v ch) (ins UA) \/ (In (O v ch) (ins Self) /\ v <> uid UA);
+  MK_in2 : forall v ch, In (O v ch) (ins UA) -> In (O v ch) (ins R);
+  MK_in3 : forall v ch, In (O v ch) (ins Self) -> v <> uid UA -> In (O v ch) (ins R)
+}.
+
+Record RwViews (s : st) (self a r : nat) (Self UA R : unit) (s' : st) : Prop := mkRw {
+  V_len : List.length (units s') = S (List.length (units s));
+  V_old1 : forall x X, get_unit s x = Some X -> liv s x -> x <> a -> x <> self ->
+           get_unit s' x = Some (map_ins self r X);
+  V_old2 : forall x X, get_unit s x = Some X -> (~ liv s x \/ x = a \/ x = self) -> get_unit s' x = Some X;
+  V_new : get_unit s' r = Some (set_place R (wfa Self) (sidx Self) (dref Self));
+  V_children : children s' = upd (upd (children s) (Z.to_nat (sidx UA)) None) (Z.to_nat (sidx Self)) (Some r);
+  V_setlen : List.length (sets s') = List.length (sets s);
+  V_sets : forall ref m, In m (get_set s' ref) <->
+           if touchedb s (ins R) ref then ((m = r \/ In m (get_set s ref)) /\ m <> self /\ m <> a)
+           else In m (get_set s ref);
+  V_rw : rewriting s' = true
+}.
+
+Lemma mem_live : forall s x, mem x (live s) = true <-> liv s x.
+Proof. intros. rewrite mem_In. apply live_In. Qed.
+
+Lemma get_app_old : forall s s2 R x, units s2 = units s ++ [R] -> x < List.length (units s) ->
+  get_unit s2 x = get_unit s x.
+Proof. intros s s2 R x H Hx. unfold get_unit. rewrite H. apply nth_error_app1; auto. Qed.
+Lemma get_app_new : forall s s2 R, units s2 = units s ++ [R] -> get_unit s2 (List.length (units s)) = Some R.
+Proof. intros s s2 R H. unfold get_unit. rewrite H. rewrite nth_error_app2, Nat.sub_diag; auto. Qed.
+
+Lemma touchedb_ext : forall s s' l ref, (forall u ch, In (O u ch) l -> get_unit s' u = get_unit s u) ->
+  touchedb s' l ref = touchedb s l ref.
+Proof.
+  intros s s' l ref H. unfold touchedb. induction l as [|i t IH]; simpl; auto.
+  rewrite IH by (intros; apply (H u ch); right; auto). f_equal.
+  destruct i as [q|u ch]; auto. rewrite (H u ch); auto. left; auto.
+Qed.
+
+Lemma map_ins_noop : forall a b U, (forall ch, ~ In (O a ch) (ins U)) -> map_ins a b U = set_ins U (ins U).
+Proof.
+  intros a b U H. unfold map_ins. f_equal.
+  rewrite <- (map_id (ins U)) at 2. apply map_ext_in. intros [q|u ch] Hin; simpl; auto.
+  destruct (Nat.eqb u a) eqn:E; auto. apply Nat.eqb_eq in E; subst. exfalso. eapply H; eauto.
+Qed.
+Lemma set_ins_self : forall U, set_ins U (ins U) = U.
+Proof. intros []; reflexivity. Qed.
+
+Lemma slot_fun : forall s i u v, slot s i u -> slot s i v -> u = v.
+Proof. unfold slot; intros. congruence. Qed.
+
+Lemma absorb_replace_views : forall s D self Self UA mk s2 rv R,
+  Inv s D -> get_unit s self = Some Self -> liv s self -> ~ In self D ->
+  get_unit s (uid UA) = Some UA -> liv s (uid UA) -> ~ In (uid UA) D -> uid UA <> self ->
+  mk (remove_ugen s (uid UA)) = Ok (s2, rv) -> MkSpec (remove_ugen s (uid UA)) s2 rv Self UA R ->
+  (forall ch, ~ In (O self ch) (ins R)) ->
+  exists s3 s', absorb s Self UA mk = Ok (s3, Some (List.length (units s))) /\
+     replace_ugen s3 self (List.length (units s)) = Ok s' /\
+     RwViews s self (uid UA) (List.length (units s)) Self UA R s'.
+Proof.
+  intros s D self Self UA mk s2 rv R HI HS Lself Nself HA La Na Hne Hmk MK Hnoself.
+  set (a := uid UA) in *. set (n := List.length (units s)).
+  destruct (remove_ugen_eq s D a UA HI La HA) as [Hs1 Hslota].
+  destruct (liv_slot s D self Self HI Lself HS) as [Hslots Hpos].
+  pose proof (slot_lt _ _ _ Hslota) as Hka. pose proof (slot_lt _ _ _ Hslots) as Hks.
+  set (ka := Z.to_nat (sidx UA)) in *. set (ks := Z.to_nat (sidx Self)) in *.
+  assert (Hkne : ka <> ks). { intro E. rewrite E in Hslota. apply Hne. eapply slot_fun; eauto. }
+  set (s1 := remove_ugen s a) in *.
+  assert (Hu1 : units s1 = units s) by (rewrite Hs1; reflexivity).
+  assert (Hset1 : sets s1 = sets s) by (rewrite Hs1; reflexivity).
+  assert (Hch1 : children s1 = upd (children s) ka None) by (rewrite Hs1; reflexivity).
+  assert (Hrw1 : rewriting s1 = true) by (rewrite Hs1; simpl; apply (I_rw s D HI)).
+  destruct MK. rewrite Hu1 in MK_rv0, MK_units0, MK_uid0. fold n in MK_rv0, MK_units0, MK_uid0.
+  assert (HselfU : uid Self = self) by (apply (I_uid s D HI); auto).
+  assert (Hselflt : self < n) by (eapply get_lt; eauto).
+  assert (Hmulti : multi R = false) by (apply tracked_flags in MK_tracked0; tauto).
+  (* adopt *)
+  set (R2 := set_dref R (dref Self)).
+  set (s2' := put_unit s2 R2).
+  assert (HuidR2 : uid R2 = n) by (unfold R2; simpl; auto).
+  assert (Hlen2 : List.length (units s2) = S n) by (rewrite MK_units0, app_length; simpl; unfold n; lia).
+  assert (Hg2n : get_unit s2 n = Some R) by (apply get_app_new; auto).
+  assert (Hg2'n : get_unit s2' n = Some R2).
+  { unfold s2'. rewrite <- HuidR2. apply get_put_same. rewrite HuidR2, Hlen2. lia. }
+  assert (Hg2'old : forall x, x < n -> get_unit s2' x = get_unit s x).
+  { intros x Hx. unfold s2'. rewrite get_put_other by (rewrite HuidR2; lia).
+    rewrite (get_app_old s s2 R x); auto. }
+  assert (Hinlive : forall v ch, In (O v ch) (ins R) -> liv s v).
+  { intros v ch Hin. destruct (MK_in4 v ch Hin) as [H1|[H1 _]].
+    - eapply (I_inlive s D HI a UA); eauto.
+    - eapply (I_inlive s D HI self Self); eauto. }
+  assert (Hok : inputs_ok s2' (ins R2)).
+  { intros v ch Hin. unfold R2 in Hin; simpl in Hin. pose proof (Hinlive v ch Hin) as Lv.
+    destruct (liv_get s D v HI Lv) as (V & r & GV & DV).
+    pose proof (get_lt _ _ _ GV) as Hv. exists V. split; [rewrite Hg2'old; auto|].
+    intros _. exists r. split; auto. destruct (I_ref s D HI v V r GV DV) as [Hr _].
+    unfold s2'; simpl. rewrite MK_sets0, Hset1. auto. }
+  pose proof (udl_spec self n a (ins R2) s2' Hok) as Hudl. cbv zeta in Hudl.
+  set (s3 := update_desc_loop s2' self n a (ins R2)) in *.
+  destruct Hudl as (Hu3 & Hc3 & Hrw3 & Hsl3 & Hset3).
+  assert (Habsorb : absorb s Self UA mk = Ok (s3, Some n)).
+  { unfold absorb. fold a. fold s1. rewrite Hmk. cbn [bind]. rewrite MK_rv0. unfold adopt.
+    rewrite Hg2n, Hmulti. fold R2. fold s2'. unfold update_desc. rewrite Hg2'n. rewrite HselfU. reflexivity. }
+  (* replace *)
+  assert (Hg3 : forall x, get_unit s3 x = get_unit s2' x) by (intro; unfold get_unit; rewrite Hu3; auto).
+  set (R3 := set_place R (wfa Self) (sidx Self) (dref Self)).
+  assert (HR3 : set_place R2 (wfa Self) (sidx Self) (dref Self) = R3) by reflexivity.
+  set (s4 := put_unit s3 R3).
+  assert (HuidR3 : uid R3 = n) by (unfold R3; simpl; auto).
+  assert (Hlen3 : List.length (units s3) = S n) by (rewrite Hu3; unfold s2'; rewrite units_put_length; auto).
+  assert (Hg4n : get_unit s4 n = Some R3).
+  { unfold s4. rewrite <- HuidR3. apply get_put_same. rewrite HuidR3, Hlen3. lia. }
+  assert (Hg4old : forall x, x < n -> get_unit s4 x = get_unit s x).
+  { intros x Hx. unfold s4. rewrite get_put_other by (rewrite HuidR3; lia). rewrite Hg3. auto. }
+  assert (Hch4 : children s4 = upd (children s) ka None).
+  { unfold s4; simpl. rewrite Hc3. unfold s2'; simpl. rewrite MK_children0. auto. }
+  assert (Hrange : (0 <= sidx Self < Z.of_nat (List.length (children s4)))%Z).
+  { rewrite Hch4, upd_length. fold ks in Hks. unfold ks in Hks. lia. }
+  set (s5 := set_child s4 (sidx Self) (Some n)).
+  assert (Hs5 : s5 = with_children s4 (upd (children s4) ks (Some n))) by (apply set_child_in; auto).
+  assert (Hch5 : children s5 = upd (upd (children s) ka None) ks (Some n)) by (rewrite Hs5; unfold with_children; cbn [children]; rewrite Hch4; auto).
+  assert (Hg5 : forall x, get_unit s5 x = get_unit s4 x) by (intro; rewrite Hs5; reflexivity).
+  assert (Huid5 : uid_ok s5).
+  { intros x X Hx. rewrite Hg5 in Hx. destruct (Nat.lt_ge_cases x n) as [Hlt|Hge].
+    - rewrite Hg4old in Hx; auto. apply (I_uid s D HI); auto.
+    - pose proof (get_lt _ _ _ Hx) as Hb. unfold s4 in Hb. rewrite units_put_length, Hlen3 in Hb.
+      assert (x = n) by lia. subst x. rewrite Hg4n in Hx. inversion Hx; subst; auto. }
+  assert (Hsn : self <> n) by lia.
+  pose proof (fold_rep_spec self n (live s5) s5 Hsn Huid5) as Hfold. cbv zeta in Hfold.
+  set (s' := fold_left (rep_step self n) (live s5) s5) in *.
+  destruct Hfold as (Hu' & Hc' & Hs' & Hrw' & Hl' & Hg').
+  assert (Hreplace : replace_ugen s3 self n = Ok s').
+  { unfold replace_ugen. rewrite Hg3, (Hg2'old self Hselflt), HS. rewrite Hg3, Hg2'n. rewrite HR3. reflexivity. }
+  (* liveness in s5 *)
+  assert (Hliv5 : forall x, liv s5 x <-> (x = n \/ (liv s x /\ x <> a /\ x <> self))).
+  { intro x. unfold liv. split.
+    - intros [i Hi]. unfold slot in Hi. rewrite Hch5 in Hi.
+      destruct (Nat.eq_dec i ks) as [->|Hi1].
+      + rewrite nth_error_upd_same in Hi by (rewrite upd_length; auto). inversion Hi. auto.
+      + rewrite nth_error_upd_other in Hi by auto.
+        destruct (Nat.eq_dec i ka) as [->|Hi2].
+        * rewrite nth_error_upd_same in Hi by auto. discriminate.
+        * rewrite nth_error_upd_other in Hi by auto. right. split; [exists i; exact Hi|]. split; intro; subst x.
+          -- apply Hi2. eapply slot_unique; eauto.
+          -- apply Hi1. eapply slot_unique; eauto.
+    - intros [->|[[i Hi] [Hxa Hxs]]].
+      + exists ks. unfold slot. rewrite Hch5. apply nth_error_upd_same. rewrite upd_length; auto.
+      + exists i. unfold slot. rewrite Hch5.
+        assert (i <> ks) by (intro; subst i; apply Hxs; eapply slot_fun; eauto).
+        assert (i <> ka) by (intro; subst i; apply Hxa; eapply slot_fun; eauto).
+        rewrite !nth_error_upd_other by auto. exact Hi. }
+  exists s3, s'. split; [exact Habsorb|]. split; [exact Hreplace|]. constructor.
+  - rewrite Hl', Hs5. unfold with_children; cbn [units]. unfold s4. rewrite units_put_length. exact Hlen3.
+  - intros x X GX Lx Hxa Hxs. pose proof (get_lt _ _ _ GX) as Hx. fold n in Hx.
+    rewrite Hg', Hg5, (Hg4old x Hx), GX.
+    assert (E : mem x (live s5) = true) by (apply mem_live, Hliv5; right; auto). rewrite E. reflexivity.
+  - intros x X GX Hcase. pose proof (get_lt _ _ _ GX) as Hx. fold n in Hx.
+    rewrite Hg', Hg5, (Hg4old x Hx), GX.
+    destruct (mem x (live s5)) eqn:E; auto. apply mem_live, Hliv5 in E.
+    destruct E as [->|[L [N1 N2]]]; [lia|]. exfalso. destruct Hcase as [H|[H|H]]; auto.
+  - rewrite Hg', Hg5, Hg4n.
+    assert (Hno : forall ch, ~ In (O self ch) (ins R3)) by (intros ch; unfold R3; simpl; apply Hnoself).
+    rewrite (map_ins_noop self n R3 Hno), set_ins_self. destruct (mem n (live s5)); reflexivity.
+  - rewrite Hc'. exact Hch5.
+  - rewrite Hs', Hs5. simpl. unfold s4; simpl. rewrite Hsl3. unfold s2'; simpl. rewrite MK_sets0, Hset1. reflexivity.
+  - intros ref m.
+    assert (E1 : get_set s' ref = get_set s3 ref).
+    { unfold get_set. rewrite Hs', Hs5. reflexivity. }
+    rewrite E1, Hset3.
+    assert (E2 : touchedb s2' (ins R2) ref = touchedb s (ins R) ref).
+    { unfold R2; simpl. apply touchedb_ext. intros u ch Hin. apply Hg2'old.
+      pose proof (Hinlive u ch Hin) as Lu. destruct (liv_get s D u HI Lu) as (V & r & GV & _). eapply get_lt; eauto. }
+    rewrite E2.
+    assert (E3 : get_set s2' ref = get_set s ref).
+    { unfold get_set, s2'; simpl. rewrite MK_sets0, Hset1. reflexivity. }
+    rewrite E3. reflexivity.
+  - rewrite Hrw', Hs5. simpl. unfold s4; simpl. rewrite Hrw3. unfold s2'; simpl. rewrite MK_rw0. exact Hrw1.
+Qed.
+
+(* ---- the invariant survives a rewrite *)
+Lemma In_map_subst : forall a b v ch l,
+  In (O v ch) (map (subst_in a b) l) <-> (v <> a /\ In (O v ch) l) \/ (v = b /\ In (O a ch) l).
+Proof.
+  intros a b v ch l. rewrite in_map_iff. split.
+  - intros [[q|u c] [E Hin]]; simpl in E; [discriminate|].
+    destruct (Nat.eqb u a) eqn:Eu.
+    + apply Nat.eqb_eq in Eu; subst u. inversion E; subst. right; auto.
+    + apply Nat.eqb_neq in Eu. inversion E; subst. left; auto.
+  - intros [[Hne Hin]|[-> Hin]].
+    + exists (O v ch). split; auto. simpl. apply Nat.eqb_neq in Hne. rewrite Hne. auto.
+    + exists (O a ch). split; auto. simpl. rewrite Nat.eqb_refl. auto.
+Qed.
+
+Lemma kis_subst : forall a b i z, kis (subst_in a b i) z = kis i z.
+Proof. intros a b [q|u ch] z; simpl; auto. destruct (Nat.eqb u a); auto. Qed.
+Arguments subst_in : simpl never.
+Lemma unit_ok_map_ins : forall a b U, unit_ok U = true -> unit_ok (map_ins a b U) = true.
+Proof.
+  intros a b U H. unfold unit_ok in *. unfold map_ins, set_ins; simpl. unfold tracked in *; simpl.
+  destruct (implb (pure U) (isugen U)); [|discriminate]. simpl in *.
+  destruct (ukind U).
+  - exact H.
+  - destruct (isugen U && negb (multi U) && negb (iswf U) && pure U); [|discriminate]. simpl in *.
+    destruct (ins U) as [|[q|u ch] [|y t]]; simpl; try discriminate. unfold subst_in. destruct (Nat.eqb u a); auto.
+  - destruct (isugen U && negb (multi U) && negb (iswf U) && pure U); [|discriminate]. simpl in *.
+    destruct (ins U) as [|x [|y [|z t]]]; simpl; try discriminate.
+    unfold nz in *. rewrite !kis_subst. exact H.
+  - rewrite map_length. exact H.
+  - rewrite map_length.
+    destruct (isugen U && negb (multi U) && negb (iswf U) && negb (pure U) && Nat.eqb (List.length (ins U)) 3); [|discriminate].
+    simpl in *. apply andb_true_iff in H. destruct H as [H1 H2]. rewrite H2, andb_true_r.
+    rewrite forallb_forall in *. intros x Hx. apply in_map_iff in Hx. destruct Hx as [i [<- Hi]].
+    unfold nz. rewrite kis_subst. apply H1; auto.
+  - rewrite map_length. exact H.
+  - exact H.
+  - exact H.
+Qed.
+
+Lemma no_members_nil : forall (l : list nat), (forall m, ~ In m l) -> l = [].
+Proof. intros [|x t] H; auto. exfalso. apply (H x). left; auto. Qed.
+
+Lemma touchedb_true : forall s l ref, touchedb s l ref = true <->
+  exists u ch V, In (O u ch) l /\ get_unit s u = Some V /\ isugen V = true /\ dref V = Some ref.
+Proof.
+  intros s l ref. unfold touchedb. rewrite existsb_exists. split.
+  - intros [[q|u ch] [Hin H]]; [discriminate|]. destruct (get_unit s u) as [V|] eqn:E; [|discriminate].
+    apply andb_true_iff in H. destruct H as [H1 H2]. destruct (dref V) as [r|] eqn:Er; [|discriminate].
+    apply Nat.eqb_eq in H2; subst. exists u, ch, V. auto.
+  - intros (u & ch & V & Hin & HV & Hi & Hd). exists (O u ch). split; auto. rewrite HV, Hi, Hd, Nat.eqb_refl. auto.
+Qed.
+
+Definition same_meta (X X' : unit) : Prop :=
+  uid X' = uid X /\ dref X' = dref X /\ sidx X' = sidx X /\ wfa X' = wfa X /\ tracked X' = tracked X /\
+  isugen X' = isugen X /\ dcevis X' = dcevis X /\ pure X' = pure X /\ ukind X' = ukind X /\ opname X' = opname X /\
+  multi X' = multi X /\ iswf X' = iswf X /\ tag X' = tag X /\ cls X' = cls X /\ urate X' = urate X /\
+  nouts X' = nouts X /\ special X' = special X /\ uchk X' = uchk X.
+Lemma same_meta_refl : forall X, same_meta X X.
+Proof. intro X. unfold same_meta. repeat split; auto. Qed.
+Lemma same_meta_map_ins : forall a b X, same_meta X (map_ins a b X).
+Proof. intros a b X. unfold same_meta, map_ins, set_ins, tracked, dcevis; simpl. repeat split; auto. Qed.
+Lemma same_meta_trans : forall X Y Z, same_meta X Y -> same_meta Y Z -> same_meta X Z.
+Proof. unfold same_meta. intros X Y Z H1 H2. intuition congruence. Qed.
+
+Section RewriteInv.
+Variables (s : st) (D : list nat) (self a : nat) (Self UA R : unit) (s' : st).
+Let n := List.length (units s).
+Hypothesis HI : Inv s D.
+Hypothesis HS : get_unit s self = Some Self.
+Hypothesis Ls : liv s self.
+Hypothesis Ns : ~ In self D.
+Hypothesis TS : tracked Self = true.
+Hypothesis HA : get_unit s a = Some UA.
+Hypothesis La : liv s a.
+Hypothesis Na : ~ In a D.
+Hypothesis TA : tracked UA = true.
+Hypothesis Hra : exists ch, In (O a ch) (ins Self).
+Hypothesis Hone : forall c, In c (dsetf s UA) -> c = self.
+Hypothesis HuR : uid R = n.
+Hypothesis TR : tracked R = true.
+Hypothesis OkR : unit_ok R = true.
+Hypothesis In1 : forall v ch, In (O v ch) (ins R) -> In (O v ch) (ins UA) \/ (In (O v ch) (ins Self) /\ v <> a).
+Hypothesis In2 : forall v ch, In (O v ch) (ins UA) -> In (O v ch) (ins R).
+Hypothesis In3 : forall v ch, In (O v ch) (ins Self) -> v <> a -> In (O v ch) (ins R).
+Hypothesis RV : RwViews s self a n Self UA R s'.
+
+Let R3 := set_place R (wfa Self) (sidx Self) (dref Self).
+
+Lemma rw_drefS : exists rs, dref Self = Some rs.
+Proof. destruct (liv_get s D self HI Ls) as (X & r & G & E). rewrite HS in G. injection G as E1; subst X. eauto. Qed.
+Lemma rw_drefA : exists ra, dref UA = Some ra.
+Proof. destruct (liv_get s D a HI La) as (X & r & G & E). rewrite HA in G. injection G as E1; subst X. eauto. Qed.
+
+Lemma rw_rank_sa : (sidx UA < sidx Self)%Z.
+Proof.
+  destruct Hra as [ch Hin]. destruct rw_drefS as [rs Hrs].
+  destruct (I_rank s D HI self Self a ch HS) as (V & GV & _ & Hlt); auto; [congruence|].
+  rewrite HA in GV. injection GV as E1; subst V. exact Hlt.
+Qed.
+Lemma rw_ne : a <> self.
+Proof. intro E. pose proof rw_rank_sa as H. pose proof HA as HA'. rewrite E, HS in HA'. injection HA' as E2. rewrite E2 in H. lia. Qed.
+
+Lemma rw_noself : forall ch, ~ In (O self ch) (ins R).
+Proof.
+  intros ch Hin. destruct rw_drefS as [rs Hrs]. destruct rw_drefA as [ra Hra'].
+  destruct (In1 self ch Hin) as [H|[H _]].
+  - destruct (I_rank s D HI a UA self ch HA) as (V & GV & _ & Hlt); auto; [congruence|].
+    rewrite HS in GV. injection GV as E1; subst V. pose proof rw_rank_sa. lia.
+  - destruct (I_rank s D HI self Self self ch HS) as (V & GV & _ & Hlt); auto; [congruence|].
+    rewrite HS in GV. injection GV as E1; subst V. lia.
+Qed.
+Lemma rw_noa : forall ch, ~ In (O a ch) (ins R).
+Proof.
+  intros ch Hin. destruct rw_drefA as [ra Hra'].
+  destruct (In1 a ch Hin) as [H|[_ H]]; [|congruence].
+  destruct (I_rank s D HI a UA a ch HA) as (V & GV & _ & Hlt); auto; [congruence|].
+  rewrite HA in GV. injection GV as E1; subst V. lia.
+Qed.
+Lemma rw_inold : forall v ch, In (O v ch) (ins R) -> liv s v /\ v <> a /\ v <> self /\ v < n.
+Proof.
+  intros v ch Hin.
+  assert (L : liv s v).
+  { destruct (In1 v ch Hin) as [H|[H _]].
+    - eapply (I_inlive s D HI a UA); eauto.
+    - eapply (I_inlive s D HI self Self); eauto. }
+  split; auto. split; [intro E; rewrite E in Hin; eapply rw_noa; eauto|]. split; [intro E; rewrite E in Hin; eapply rw_noself; eauto|].
+  destruct (liv_get s D v HI L) as (V & r & G & _). eapply get_lt; eauto.
+Qed.
+
+(* liveness after the rewrite *)
+Lemma rw_slots : slot s (Z.to_nat (sidx UA)) a /\ slot s (Z.to_nat (sidx Self)) self /\
+                 Z.to_nat (sidx UA) <> Z.to_nat (sidx Self).
+Proof.
+  destruct (liv_slot s D a UA HI La HA) as [A _]. destruct (liv_slot s D self Self HI Ls HS) as [B _].
+  split; auto. split; auto. intro E. rewrite E in A. apply rw_ne. eapply slot_fun; eauto.
+Qed.
+Lemma rw_slot' : forall i x, slot s' i x <->
+  (i = Z.to_nat (sidx Self) /\ x = n) \/ (i <> Z.to_nat (sidx Self) /\ i <> Z.to_nat (sidx UA) /\ slot s i x).
+Proof.
+  intros i x. destruct rw_slots as (A & B & C). pose proof (slot_lt _ _ _ A). pose proof (slot_lt _ _ _ B).
+  unfold slot. rewrite (V_children _ _ _ _ _ _ _ _ RV).
+  destruct (Nat.eq_dec i (Z.to_nat (sidx Self))) as [->|N1].
+  - rewrite nth_error_upd_same by (rewrite upd_length; auto). split.
+    + intro E; inversion E; auto.
+    + intros [[_ ->]|[E _]]; auto. congruence.
+  - rewrite nth_error_upd_other by auto. destruct (Nat.eq_dec i (Z.to_nat (sidx UA))) as [->|N2].
+    + rewrite nth_error_upd_same by auto. split; [discriminate|]. intros [[E _]|[_ [E _]]]; congruence.
+    + rewrite nth_error_upd_other by auto. split; [auto|]. intros [[E _]|[_ [_ E]]]; auto. congruence.
+Qed.
+Lemma rw_liv' : forall x, liv s' x <-> x = n \/ (liv s x /\ x <> a /\ x <> self).
+Proof.
+  intro x. destruct rw_slots as (A & B & C). unfold liv. split.
+  - intros [i Hi]. apply rw_slot' in Hi. destruct Hi as [[_ ->]|(N1 & N2 & Hi)]; auto.
+    right. split; [eauto|]. split; intro E; rewrite E in Hi.
+    + apply N2. eapply slot_unique; eauto.
+    + apply N1. eapply slot_unique; eauto.
+  - intros [->|[[i Hi] [N1 N2]]].
+    + exists (Z.to_nat (sidx Self)). apply rw_slot'. auto.
+    + exists i. apply rw_slot'. right. split; [|split; auto].
+      * intro E; rewrite E in Hi. apply N2. eapply slot_fun; eauto.
+      * intro E; rewrite E in Hi. apply N1. eapply slot_fun; eauto.
+Qed.
+
+(* units after the rewrite *)
+Definition rewired (x : nat) : Prop := liv s x /\ x <> a /\ x <> self.
+Lemma rewired_dec : forall x, rewired x \/ ~ rewired x.
+Proof.
+  intro x. unfold rewired. destruct (mem x (live s)) eqn:E.
+  - apply mem_live in E. destruct (Nat.eq_dec x a); [right; tauto|]. destruct (Nat.eq_dec x self); [right; tauto|]. left; auto.
+  - right. intros [L _]. apply mem_live in L. congruence.
+Qed.
+
+Lemma rw_get_old : forall x X, get_unit s x = Some X ->
+  exists X', get_unit s' x = Some X' /\ same_meta X X' /\ unit_ok X' = true /\
+    (forall v ch, In (O v ch) (ins X') <->
+       (rewired x /\ ((v <> self /\ In (O v ch) (ins X)) \/ (v = n /\ In (O self ch) (ins X)))) \/
+       (~ rewired x /\ In (O v ch) (ins X))).
+Proof.
+  intros x X G. pose proof (I_ok s D HI x X G) as Ok. destruct (rewired_dec x) as [Rw|Nrw].
+  - destruct Rw as (L & N1 & N2). exists (map_ins self n X).
+    split; [apply (V_old1 _ _ _ _ _ _ _ _ RV); auto|]. split; [apply same_meta_map_ins|].
+    split; [apply unit_ok_map_ins; auto|].
+    intros v ch. unfold map_ins, set_ins; simpl. rewrite In_map_subst. unfold rewired. tauto.
+  - exists X. split.
+    + apply (V_old2 _ _ _ _ _ _ _ _ RV); auto. unfold rewired in Nrw.
+      destruct (mem x (live s)) eqn:E; [apply mem_live in E|left; intro L; apply mem_live in L; congruence].
+      destruct (Nat.eq_dec x a); auto. destruct (Nat.eq_dec x self); auto. exfalso; apply Nrw; auto.
+    + split; [apply same_meta_refl|]. split; auto. intros; tauto.
+Qed.
+
+Lemma rw_get_inv : forall x X', get_unit s' x = Some X' ->
+  (x = n /\ X' = R3) \/ (x < n /\ exists X, get_unit s x = Some X).
+Proof.
+  intros x X' G. pose proof (get_lt _ _ _ G) as Hx. rewrite (V_len _ _ _ _ _ _ _ _ RV) in Hx. fold n in Hx.
+  destruct (Nat.eq_dec x n) as [->|Hne].
+  - left. split; auto. rewrite (V_new _ _ _ _ _ _ _ _ RV) in G. injection G as E. auto.
+  - right. split; [lia|]. apply get_some. fold n. lia.
+Qed.
+
+Lemma rw_R3_meta : uid R3 = n /\ dref R3 = dref Self /\ sidx R3 = sidx Self /\ tracked R3 = true /\
+                   isugen R3 = true /\ dcevis R3 = true /\ ins R3 = ins R /\ unit_ok R3 = true.
+Proof.
+  destruct (tracked_flags R TR) as (A & B & C & E). unfold R3, set_place, tracked, dcevis, unit_ok in *; simpl.
+  repeat split; auto.
+Qed.
+
+(* reads after the rewrite *)
+Lemma rw_reads_old : forall c C x, get_unit s c = Some C -> rewired c -> x <> n ->
+  (reads s' c x <-> (x <> self /\ reads s c x)).
+Proof.
+  intros c C x G Rw Hx. destruct (rw_get_old c C G) as (C' & G' & _ & _ & Hin). unfold reads. split.
+  - intros (C2 & ch & G2 & I2). rewrite G' in G2. injection G2 as E; subst C2. apply Hin in I2.
+    destruct I2 as [[_ [[N I]|[E _]]]|[N _]]; try contradiction.
+    split; auto. exists C, ch. auto.
+  - intros [N (C2 & ch & G2 & I2)]. rewrite G in G2. injection G2 as E; subst C2.
+    exists C', ch. split; auto. apply Hin. left. split; auto.
+Qed.
+Lemma rw_reads_new : forall c C, get_unit s c = Some C -> rewired c -> (reads s' c n <-> reads s c self).
+Proof.
+  intros c C G Rw. destruct (rw_get_old c C G) as (C' & G' & _ & _ & Hin). unfold reads. split.
+  - intros (C2 & ch & G2 & I2). rewrite G' in G2. injection G2 as E; subst C2. apply Hin in I2.
+    destruct I2 as [[_ [[N I]|[_ I]]]|[N _]]; try contradiction.
+    + exfalso. pose proof (I_ins s D HI c C n ch G I). unfold n in H. lia.
+    + exists C, ch. auto.
+  - intros (C2 & ch & G2 & I2). rewrite G in G2. injection G2 as E; subst C2.
+    exists C', ch. split; auto. apply Hin. left. split; auto.
+Qed.
+Lemma rw_reads_R : forall x, reads s' n x <-> exists ch, In (O x ch) (ins R).
+Proof.
+  intro x. unfold reads. rewrite (V_new _ _ _ _ _ _ _ _ RV). split.
+  - intros (C & ch & G & I). injection G as E; subst C. exists ch. exact I.
+  - intros [ch I]. exists R3, ch. split; auto.
+Qed.
+
+(* descendant sets after the rewrite *)
+Lemma rw_touched : forall ref, touchedb s (ins R) ref = true <->
+  exists x X ch, In (O x ch) (ins R) /\ get_unit s x = Some X /\ isugen X = true /\ dref X = Some ref.
+Proof. intro ref. rewrite touchedb_true. split; intros (u & ch & V & A); [exists u, V, ch | exists u, V, ch]; tauto. Qed.
+
+Lemma rankS : forall v ch, In (O v ch) (ins Self) ->
+  exists V, get_unit s v = Some V /\ dref V <> None /\ (sidx V < sidx Self)%Z.
+Proof. intros v ch H. destruct rw_drefS as [rs Hrs]. apply (I_rank s D HI self Self v ch HS); auto. congruence. Qed.
+Lemma rankA : forall v ch, In (O v ch) (ins UA) ->
+  exists V, get_unit s v = Some V /\ dref V <> None /\ (sidx V < sidx UA)%Z.
+Proof. intros v ch H. destruct rw_drefA as [ra Hra']. apply (I_rank s D HI a UA v ch HA); auto. congruence. Qed.
+
+Lemma rw_set_untouched : forall ref m, touchedb s (ins R) ref = false ->
+  (In m (get_set s' ref) <-> In m (get_set s ref)).
+Proof. intros ref m E. rewrite (V_sets _ _ _ _ _ _ _ _ RV), E. tauto. Qed.
+Lemma rw_set_touched : forall ref m, touchedb s (ins R) ref = true ->
+  (In m (get_set s' ref) <-> ((m = n \/ In m (get_set s ref)) /\ m <> self /\ m <> a)).
+Proof. intros ref m E. rewrite (V_sets _ _ _ _ _ _ _ _ RV), E. tauto. Qed.
+
+(* the set of self (now of the replacement) is not touched *)
+Lemma rw_self_untouched : forall rs, dref Self = Some rs -> touchedb s (ins R) rs = false.
+Proof.
+  intros rs E. destruct (touchedb s (ins R) rs) eqn:T; auto. exfalso.
+  apply rw_touched in T. destruct T as (x & X & ch & I & G & Iu & Dx).
+  destruct (rw_inold x ch I) as (L & _ & N & _). apply N.
+  apply (I_refinj s D HI x self X Self rs); auto.
+Qed.
+
+Theorem rewrite_inv : Inv s' D.
+Proof.
+  destruct rw_drefS as [rs Hrs]. destruct rw_drefA as [ra Hra'].
+  destruct rw_R3_meta as (M1 & M2 & M3 & M4 & M5 & M6 & M7 & M8).
+  pose proof (V_new _ _ _ _ _ _ _ _ RV) as GN. fold R3 in GN.
+  destruct (I_ref s D HI self Self rs HS Hrs) as [Hrs_lt Hs_range].
+  constructor.
+  - (* I_rw *) exact (V_rw _ _ _ _ _ _ _ _ RV).
+  - (* I_uid *) intros x X' G. destruct (rw_get_inv x X' G) as [[-> ->]|[_ [X GX]]]; auto.
+    destruct (rw_get_old x X GX) as (X2 & G2 & SM & _). rewrite G in G2. injection G2 as E; subst X2.
+    destruct SM as (A & _). rewrite A. apply (I_uid s D HI); auto.
+  - (* I_ok *) intros x X' G. destruct (rw_get_inv x X' G) as [[-> ->]|[_ [X GX]]]; auto.
+    destruct (rw_get_old x X GX) as (X2 & G2 & _ & Ok & _). rewrite G in G2. injection G2 as E; subst X2. auto.
+  - (* I_ins *) intros x X' v ch G I. rewrite (V_len _ _ _ _ _ _ _ _ RV). fold n.
+    destruct (rw_get_inv x X' G) as [[-> ->]|[_ [X GX]]].
+    + rewrite M7 in I. destruct (rw_inold v ch I) as (_ & _ & _ & H). lia.
+    + destruct (rw_get_old x X GX) as (X2 & G2 & _ & _ & Hin). rewrite G in G2. injection G2 as E; subst X2.
+      apply Hin in I. destruct I as [[_ [[_ I]|[-> _]]]|[_ I]]; try lia;
+        pose proof (I_ins s D HI x X v ch GX I) as H; fold n in H; lia.
+  - (* I_slot *) intros i x Hs. apply rw_slot' in Hs. destruct Hs as [[-> ->]|(N1 & N2 & Hs)].
+    + exists R3, rs. split; auto. split; [rewrite M3; lia|]. rewrite M2; auto.
+    + destruct (I_slot s D HI i x Hs) as (X & r & GX & SX & DX).
+      destruct (rw_get_old x X GX) as (X' & G' & SM & _). destruct SM as (_ & A & B & _).
+      exists X', r. split; auto. split; congruence.
+  - (* I_ref *) intros x X' r G Dr. rewrite (V_setlen _ _ _ _ _ _ _ _ RV), (V_children _ _ _ _ _ _ _ _ RV), !upd_length.
+    destruct (rw_get_inv x X' G) as [[-> ->]|[_ [X GX]]].
+    + rewrite M2 in Dr. rewrite M3. apply (I_ref s D HI self Self r); auto.
+    + destruct (rw_get_old x X GX) as (X2 & G2 & SM & _). rewrite G in G2. injection G2 as E; subst X2.
+      destruct SM as (_ & A & B & _). rewrite B. apply (I_ref s D HI x X r); auto. congruence.
+  - (* I_refinj *) intros u v U' V' r Lu Lv GU GV DU DV.
+    apply rw_liv' in Lu. apply rw_liv' in Lv.
+    assert (Hcase : forall x X', (x = n \/ rewired x) -> get_unit s' x = Some X' -> dref X' = Some r ->
+                    (x = n /\ dref Self = Some r) \/ (rewired x /\ exists X, get_unit s x = Some X /\ dref X = Some r)).
+    { intros x X' Hx G Dr. destruct (rw_get_inv x X' G) as [[-> ->]|[Hlt [X GX]]].
+      - left. split; [auto|congruence].
+      - right. destruct Hx as [->|Rw]; [lia|]. split; auto. exists X. split; auto.
+        destruct (rw_get_old x X GX) as (X2 & G2 & SM & _). rewrite G in G2. injection G2 as E; subst X2.
+        destruct SM as (_ & A & _). congruence. }
+    destruct (Hcase u U' Lu GU DU) as [[-> EU]|[(LU & NU1 & NU2) (U & GU0 & DU0)]];
+    destruct (Hcase v V' Lv GV DV) as [[-> EV]|[(LV & NV1 & NV2) (V & GV0 & DV0)]]; auto.
+    + exfalso. apply NV2. symmetry. apply (I_refinj s D HI self v Self V r); auto.
+    + exfalso. apply NU2. apply (I_refinj s D HI u self U Self r); auto.
+    + apply (I_refinj s D HI u v U V r); auto.
+  - (* I_refshape *) intros u v U' V' r GU GV DU DV.
+    assert (Hcase : forall x X', get_unit s' x = Some X' -> dref X' = Some r ->
+              exists y X, get_unit s y = Some X /\ dref X = Some r /\ dcevis X' = dcevis X /\ tracked X' = tracked X).
+    { intros x X' G Dr. destruct (rw_get_inv x X' G) as [[-> ->]|[Hlt [X GX]]].
+      - exists self, Self. split; auto. split; [congruence|].
+        destruct (tracked_flags Self TS) as (_ & _ & _ & E). rewrite M6, M4, E, TS. auto.
+      - exists x, X. split; auto. destruct (rw_get_old x X GX) as (X2 & G2 & SM & _). rewrite G in G2. injection G2 as E; subst X2.
+        destruct SM as (_ & A & _ & _ & B & _ & C & _). split; [congruence|]. auto. }
+    destruct (Hcase u U' GU DU) as (u0 & U & GU0 & DU0 & E1 & E2).
+    destruct (Hcase v V' GV DV) as (v0 & V & GV0 & DV0 & E3 & E4).
+    destruct (I_refshape s D HI u0 v0 U V r GU0 GV0 DU0 DV0) as [A B]. split; congruence.
+  - (* I_rank *) intros x X' v ch G Dn I.
+    assert (Hold : forall y Y, get_unit s y = Some Y -> dref Y <> None ->
+                   exists Y', get_unit s' y = Some Y' /\ dref Y' <> None /\ sidx Y' = sidx Y).
+    { intros y Y GY DY. destruct (rw_get_old y Y GY) as (Y' & G' & SM & _). destruct SM as (_ & A & B & _).
+      exists Y'. split; auto. split; congruence. }
+    destruct (rw_get_inv x X' G) as [[-> ->]|[Hlt [X GX]]].
+    + rewrite M7 in I. rewrite M3.
+      destruct (In1 v ch I) as [H|[H _]].
+      * destruct (rankA v ch H) as (V & GV & DV & Hlt).
+        destruct (Hold v V GV DV) as (V' & A & B & C). exists V'. split; auto. split; auto.
+        pose proof rw_rank_sa. lia.
+      * destruct (rankS v ch H) as (V & GV & DV & Hlt).
+        destruct (Hold v V GV DV) as (V' & A & B & C). exists V'. split; auto. split; auto. lia.
+    + destruct (rw_get_old x X GX) as (X2 & G2 & SM & _ & Hin). rewrite G in G2. injection G2 as E; subst X2.
+      destruct SM as (_ & A & B & _). rewrite A in Dn. rewrite B.
+      apply Hin in I. destruct I as [[_ [[_ I]|[-> I]]]|[_ I]].
+      * destruct (I_rank s D HI x X v ch GX Dn I) as (V & GV & DV & Hlt').
+        destruct (Hold v V GV DV) as (V' & P & Q & S). exists V'. split; auto. split; auto. lia.
+      * destruct (I_rank s D HI x X self ch GX Dn I) as (V & GV & DV & Hlt').
+        rewrite HS in GV. injection GV as E; subst V.
+        exists R3. split; [exact GN|]. split; [rewrite M2; congruence | rewrite M3; exact Hlt'].
+      * destruct (I_rank s D HI x X v ch GX Dn I) as (V & GV & DV & Hlt').
+        destruct (Hold v V GV DV) as (V' & P & Q & S). exists V'. split; auto. split; auto. lia.
+  - (* I_ch *) intros x X' v ch V' G I GV MV.
+    assert (Hold : forall y Y', get_unit s' y = Some Y' -> multi Y' = false -> y <> n ->
+                   exists Y, get_unit s y = Some Y /\ multi Y = false).
+    { intros y Y' GY MY Ny. destruct (rw_get_inv y Y' GY) as [[-> _]|[_ [Y GY0]]]; [congruence|].
+      destruct (rw_get_old y Y GY0) as (Y2 & G2 & SM & _). rewrite GY in G2. injection G2 as E; subst Y2.
+      exists Y. split; auto. destruct SM as (_ & _ & _ & _ & _ & _ & _ & _ & _ & _ & A & _). congruence. }
+    assert (HchS : forall ch0, In (O self ch0) (ins Self) -> False) by (intros ch0 H0; destruct (rankS self ch0 H0) as (V & GV0 & _ & Hlt); rewrite HS in GV0; injection GV0 as E; subst V; lia).
+    destruct (rw_get_inv x X' G) as [[-> ->]|[_ [X GX]]].
+    + rewrite M7 in I. destruct (rw_inold v ch I) as (_ & _ & _ & Hv).
+      destruct (Hold v V' GV MV) as (V & GV0 & MV0); [unfold n in *; lia|].
+      destruct (In1 v ch I) as [H|[H _]].
+      * apply (I_ch s D HI a UA v ch V); auto.
+      * apply (I_ch s D HI self Self v ch V); auto.
+    + destruct (rw_get_old x X GX) as (X2 & G2 & _ & _ & Hin). rewrite G in G2. injection G2 as E; subst X2.
+      apply Hin in I. destruct I as [[_ [[_ I]|[-> I]]]|[_ I]].
+      * destruct (Nat.eq_dec v n) as [->|Nv].
+        -- exfalso. pose proof (I_ins s D HI x X n ch GX I). unfold n in *. lia.
+        -- destruct (Hold v V' GV MV Nv) as (V & GV0 & MV0). apply (I_ch s D HI x X v ch V); auto.
+      * apply (I_ch s D HI x X self ch Self); auto. apply tracked_flags in TS; tauto.
+      * destruct (Nat.eq_dec v n) as [->|Nv].
+        -- exfalso. pose proof (I_ins s D HI x X n ch GX I). unfold n in *. lia.
+        -- destruct (Hold v V' GV MV Nv) as (V & GV0 & MV0). apply (I_ch s D HI x X v ch V); auto.
+  - (* I_inlive *) intros c C' v ch Lc Nc G I. apply rw_liv'. apply rw_liv' in Lc.
+    destruct (rw_get_inv c C' G) as [[-> ->]|[Hlt [C GC]]].
+    + rewrite M7 in I. destruct (rw_inold v ch I) as (L & N1 & N2 & _). right. auto.
+    + destruct Lc as [->|Rw]; [lia|].
+      destruct (rw_get_old c C GC) as (C2 & G2 & _ & _ & Hin). rewrite G in G2. injection G2 as E; subst C2.
+      apply Hin in I. destruct I as [[_ [[N I]|[-> _]]]|[Nrw _]]; [|left; auto|contradiction].
+      right. destruct Rw as (L & N1 & N2). split; [eapply (I_inlive s D HI c C); eauto|]. split; auto.
+      intro; subst v.
+      assert (Hin' : In c (dsetf s UA)).
+      { apply (I_lower s D HI a UA c); auto. - apply tracked_flags in TA; tauto. - exists C, ch. auto. }
+      apply N2. apply Hone; auto.
+  - (* I_lower *) intros x X' c Lx Nx GX IX Lc Nc Hr. apply rw_liv' in Lx. apply rw_liv' in Lc.
+    destruct (rw_get_inv x X' GX) as [[-> ->]|[Hltx [X GX0]]].
+    + (* x is the replacement *)
+      unfold dsetf. rewrite M2, Hrs. apply rw_set_untouched; [apply rw_self_untouched; auto|].
+      destruct Lc as [->|Rw].
+      * exfalso. apply rw_reads_R in Hr. destruct Hr as [ch I]. destruct (rw_inold n ch I) as (_ & _ & _ & H). lia.
+      * destruct Rw as (L & N1 & N2). destruct (liv_get s D c HI L) as (C & rc & GC & _).
+        apply (rw_reads_new c C GC) in Hr; [|split; auto].
+        pose proof (I_lower s D HI self Self c Ls Ns HS) as H. unfold dsetf in H. rewrite Hrs in H. apply H; auto.
+        apply tracked_flags in TS; tauto.
+    + destruct Lx as [->|Rwx]; [lia|]. destruct Rwx as (Lx0 & Nx1 & Nx2).
+      destruct (rw_get_old x X GX0) as (X2 & G2 & SM & _). rewrite GX in G2. injection G2 as E; subst X2.
+      destruct SM as (_ & DXe & _ & _ & _ & IXe & _).
+      destruct (liv_get s D x HI Lx0) as (X0 & rx & GX1 & DX1). rewrite GX0 in GX1. injection GX1 as E; subst X0.
+      unfold dsetf. rewrite DXe, DX1. rewrite IXe in IX.
+      destruct Lc as [->|Rw].
+      * apply rw_reads_R in Hr. destruct Hr as [ch I].
+        assert (T : touchedb s (ins R) rx = true) by (apply rw_touched; exists x, X, ch; auto).
+        apply rw_set_touched; auto. split; auto. split; [unfold n; pose proof (get_lt _ _ _ HS); lia | unfold n; pose proof (get_lt _ _ _ HA); lia].
+      * destruct Rw as (L & N1 & N2). destruct (liv_get s D c HI L) as (C & rc & GC & _).
+        assert (Hxn : x <> n) by lia.
+        apply (rw_reads_old c C x GC) in Hr; [|split; auto|auto]. destruct Hr as [_ Hr].
+        pose proof (I_lower s D HI x X c Lx0 Nx GX0 IX L Nc Hr) as H. unfold dsetf in H. rewrite DX1 in H.
+        destruct (touchedb s (ins R) rx) eqn:T.
+        -- apply rw_set_touched; auto.
+        -- apply rw_set_untouched; auto.
+  - (* I_upper *) intros x X' c Lx Nx GX TX Hc. apply rw_liv' in Lx.
+    destruct (rw_get_inv x X' GX) as [[-> ->]|[Hltx [X GX0]]].
+    + unfold dsetf in Hc. rewrite M2, Hrs in Hc. apply rw_set_untouched in Hc; [|apply rw_self_untouched; auto].
+      pose proof (I_upper s D HI self Self c Ls Ns HS TS) as H. unfold dsetf in H. rewrite Hrs in H.
+      destruct (H Hc) as [L Rd]. destruct (liv_get s D c HI L) as (C & rc & GC & DC).
+      assert (Rw : rewired c).
+      { split; auto. destruct Rd as (C2 & ch & G2 & I2). rewrite GC in G2. injection G2 as E; subst C2.
+        destruct (I_rank s D HI c C self ch GC) as (V & GV & _ & Hlt); auto; [congruence|].
+        rewrite HS in GV. injection GV as E; subst V. split; intro E.
+        - pose proof rw_rank_sa as Hsa. rewrite E, HA in GC. injection GC as E2. rewrite <- E2 in Hlt. lia.
+        - rewrite E, HS in GC. injection GC as E2. rewrite <- E2 in Hlt. lia. }
+      split; [apply rw_liv'; right; auto|]. apply (rw_reads_new c C GC Rw). auto.
+    + destruct Lx as [->|Rwx]; [lia|]. destruct Rwx as (Lx0 & Nx1 & Nx2).
+      destruct (rw_get_old x X GX0) as (X2 & G2 & SM & _). rewrite GX in G2. injection G2 as E; subst X2.
+      destruct SM as (_ & DXe & _ & _ & TXe & _).
+      destruct (liv_get s D x HI Lx0) as (X0 & rx & GX1 & DX1). rewrite GX0 in GX1. injection GX1 as E; subst X0.
+      unfold dsetf in Hc. rewrite DXe, DX1 in Hc. rewrite TXe in TX.
+      pose proof (I_upper s D HI x X) as HU. unfold dsetf in HU. rewrite DX1 in HU.
+      assert (Hxn : x <> n) by lia.
+      destruct (touchedb s (ins R) rx) eqn:T.
+      * apply rw_set_touched in Hc; auto. destruct Hc as [[->|Hc] [N1 N2]].
+        -- split; [apply rw_liv'; auto|]. apply rw_reads_R.
+           apply rw_touched in T. destruct T as (y & Y & ch & I & GY & IY & DY).
+           destruct (rw_inold y ch I) as (Ly & _). 
+           assert (y = x) by (apply (I_refinj s D HI y x Y X rx); auto). subst y. eauto.
+        -- destruct (HU c Lx0 Nx GX0 TX Hc) as [L Rd]. destruct (liv_get s D c HI L) as (C & rc & GC & _).
+           split; [apply rw_liv'; right; split; auto|].
+           apply (rw_reads_old c C x GC); auto. split; auto.
+      * apply rw_set_untouched in Hc; auto.
+        destruct (HU c Lx0 Nx GX0 TX Hc) as [L Rd]. destruct (liv_get s D c HI L) as (C & rc & GC & _).
+        assert (IXu : isugen X = true) by (apply tracked_flags in TX; tauto).
+        assert (Nca : c <> a).
+        { intro E. rewrite E in Rd. destruct Rd as (C2 & ch & G2 & I2). rewrite HA in G2. injection G2 as E2; subst C2.
+          pose proof (In2 x ch I2) as I3.
+          assert (touchedb s (ins R) rx = true) by (apply rw_touched; exists x, X, ch; auto). congruence. }
+        assert (Ncs : c <> self).
+        { intro E. rewrite E in Rd. destruct Rd as (C2 & ch & G2 & I2). rewrite HS in G2. injection G2 as E2; subst C2.
+          pose proof (In3 x ch I2 Nx1) as I3.
+          assert (touchedb s (ins R) rx = true) by (apply rw_touched; exists x, X, ch; auto). congruence. }
+        split; [apply rw_liv'; right; split; auto|].
+        apply (rw_reads_old c C x GC); auto. split; auto.
+  - (* I_dying *) intros y Hy. destruct (I_dying s D HI y Hy) as (Ly & (Y & GY & DY & PY) & NR).
+    assert (Nya : y <> a) by (intro; subst; contradiction).
+    assert (Nys : y <> self) by (intro; subst; contradiction).
+    destruct (rw_get_old y Y GY) as (Y' & GY' & SM & _). destruct SM as (_ & DYe & _ & _ & _ & _ & _ & PYe & _).
+    destruct (liv_get s D y HI Ly) as (Y0 & ry & GY1 & DY1). rewrite GY in GY1. injection GY1 as E; subst Y0.
+    split; [apply rw_liv'; right; split; auto|]. split.
+    + exists Y'. split; auto. split; [|congruence].
+      unfold dsetf in *. rewrite DYe, DY1 in *. apply no_members_nil. intros m Hm.
+      assert (T : touchedb s (ins R) ry = false).
+      { destruct (touchedb s (ins R) ry) eqn:T; auto. exfalso.
+        apply rw_touched in T. destruct T as (x & X & ch & I & GX & IX & DX).
+        destruct (rw_inold x ch I) as (Lx & _).
+        assert (x = y) by (apply (I_refinj s D HI x y X Y ry); auto). subst x.
+        destruct (In1 y ch I) as [H|[H _]].
+        - apply (NR a La Na). exists UA, ch. auto.
+        - apply (NR self Ls Ns). exists Self, ch. auto. }
+      apply rw_set_untouched in Hm; auto. rewrite DY in Hm. contradiction.
+    + intros c Lc Nc Hr. apply rw_liv' in Lc. destruct Lc as [->|Rw].
+      * apply rw_reads_R in Hr. destruct Hr as [ch I].
+        destruct (In1 y ch I) as [H|[H _]].
+        -- apply (NR a La Na). exists UA, ch. auto.
+        -- apply (NR self Ls Ns). exists Self, ch. auto.
+      * destruct Rw as (L & N1 & N2). destruct (liv_get s D c HI L) as (C & rc & GC & _).
+        assert (Hyn : y <> n) by (pose proof (get_lt _ _ _ GY); unfold n; lia).
+        apply (rw_reads_old c C y GC) in Hr; [|split; auto|auto]. destruct Hr as [_ Hr].
+        apply (NR c L Nc Hr).
+Qed.
+End RewriteInv.
